@@ -162,7 +162,9 @@ impl OctFault {
 
 /// the corrupt values an integer field is replaced by
 pub fn int_corruptions(honest: usize, l: usize) -> Vec<usize> {
-    let mut v = vec![0usize, 1, l.wrapping_sub(1), l, l + 1, honest.wrapping_add(1), honest.wrapping_sub(1), 1usize << 31, 1usize << 32, 1usize << 63, usize::MAX - 1, usize::MAX];
+    // (the honest value plus a multiple of 2^8 / 2^16 / 2^32 / 2^63: what survives a narrowing to
+    //  u8 / u16 / u32 / i64 somewhere on the way)
+    let mut v = vec![0usize, 1, l.wrapping_sub(1), l, l + 1, honest.wrapping_add(1), honest.wrapping_sub(1), 1usize << 31, 1usize << 32, 1usize << 63, usize::MAX - 1, usize::MAX, honest.wrapping_add(1usize << 8), honest.wrapping_add(1usize << 16), honest.wrapping_add(1usize << 32), honest.wrapping_add(3usize << 32), honest.wrapping_add(1usize << 63)];
     v.retain(|&x| x != honest);
     v.sort();
     v.dedup();
